@@ -481,11 +481,13 @@ def resume_value_reaches_future(chk: Check, rule: str) -> None:
            '(a path that returns without doing so drops the value: the continuation runs without it, or never)', node=where, kind='resume-value-reaches-future')
     # (a subclass may add its own wake-up -- the workchain's awaitable completion resolves the future with NULL, that is
     # C10's mechanism; the rule is about the base state, where resume() is the only source of a result)
-    for c in [w]:
+    for c in [w] + list(prog.subclasses(w)):
+        # (in a subclass the wake-up it adds is the completion callback of what it awaits: a method registered with add_done_callback)
+        callbacks = {norm(a).split('.')[-1] for g in c.emethods.values() for x in calls_in_func(prog.view(g), 'add_done_callback') for a in x.args} if c is not w else set()
         for f in c.emethods.values():
             f = prog.view(f)   # (the same view ``mine`` was collected from: call nodes are compared by identity)
             for s in writer_sites(chk.ctx, f, [LOC]):
-                if f.name == 'exit':
+                if f.name == 'exit' or f.name in callbacks:
                     continue   # releasing a step that is still blocked when the state is LEFT: the state is no longer current, what that step returns is discarded (C02 / C03 rule FUT-wait-release)
                 if s.op == 'set_result' and not any(s.call is m.call for m in mine):
                     chk.ob(rule, f, False, 'the waiting future is given a result outside resume(value): the continuation is woken with a value nobody passed to resume()',
